@@ -208,6 +208,9 @@ Record c16case := {
   (* recorded from the implementation *)
   j_feasible : bool;                 (* network.is_feasible(X) *)
   j_feasible_lin : bool;             (* network.is_feasible(X, linear=True) *)
+  j_iface : option bool;             (* Interface.is_feasible({station id: row}) on a Simulator+Interface of the site *)
+  j_reload : bool;                   (* ChargingNetwork.from_json(network.to_json()).is_feasible(X) *)
+  j_reload_iface : option bool;      (* Interface.is_feasible({station id: row}) on the reloaded network *)
   j_power : list Q                   (* per transformer: sum over the stations behind it of V_i * X_i0 *)
 }.
 
@@ -215,6 +218,17 @@ Definition check_c16 (c : c16case) : bool :=
   let s := k_site c in
   Bool.eqb (net_is_feasible QF (site_net_Q s) (k_X c) (k_T c) false None None) (j_feasible c)
   && Bool.eqb (net_is_feasible QF (site_net_Q s) (k_X c) (k_T c) true None None) (j_feasible_lin c)
+  (* through the Interface: the mapping {station i: row i} of ALL stations, by station id *)
+  && (let m := combine (seq 0 (length (k_X c))) (k_X c) in
+      let want := iface_is_feasible QF (site_net_Q s) m false None None in
+      let agrees o := match want, o with
+                      | Ok b, Some b' => Bool.eqb b b'
+                      | Err _, None => true
+                      | _, _ => false
+                      end in
+      agrees (j_iface c) && agrees (j_reload_iface c))
+  (* a network reloaded from its own JSON answers like the original *)
+  && Bool.eqb (net_is_feasible QF (site_net_Q s) (k_X c) (k_T c) false None None) (j_reload c)
   && list_eqb Qclose
        (map (fun tr => qsum_sel (member_flags (n_site_stations s) (t_members tr)) (s_voltages s) (k_X c) 0)
             (s_transformers s))
